@@ -35,9 +35,9 @@ import A2Verif.Props.C05
 * the name correspondence in both directions: found by `get_file` ⇒ listed under `absPath p` (`entName_of_key`), not found ⇒
   not listed (`not_listed`), a freshly packed name is well named (`fresh_name`).
 
-**Hypotheses of `put_step` that the code as written needs** (`PutArg`): every chunk `0 ..< end` present, no chunk longer than
-`chunk_len`, length ≤ `end · chunk_len`.  At each excluded point the real code misbehaves (clusters leaked by a refused put;
-silent truncation; an entry whose size exceeds its chain); `putRepaired_step` shows the proposed repair needs none of them.
+**`put_step` has no hypothesis on the file image** since fix 7da7b06 (found by this proof: before it the theorem needed
+every chunk `0 ..< end` present, no chunk longer than `chunk_len`, length ≤ `end · chunk_len`, and at each excluded point the
+real code misbehaved: clusters leaked by a refused put; silent truncation; an entry whose size exceeds its chain).
 
 **Partial** (statement in the docstring of `step_refines_partial`): `mkdir`, operations below the root, and `delete` /
 `rename` / `lock` / `unlock` of a directory are not proved; their byte-exact agreement with the real code is checked on every
@@ -148,19 +148,19 @@ theorem attr_keeps_flat {d d' : Disk} {p : Bytes} {set clear : Option Nat} {res 
     · exact hflat r (by rw [hv]; simp [h])
 
 /-- **`put` refines** (C01 content, C02 frame, C03, C04 free units only, C05 listing): for a state satisfying the
-invariant, a root-level path in any spelling of case, a two-byte clock, and a file image that is well formed for this
-volume (`PutArg`: every chunk `0 ..< end` present, none longer than a cluster, length not beyond the chunks — at each of
-the three excluded points the real code misbehaves, see `design/FsFat.md`), `put` followed by the flush preserves the
-invariant and is a step the abstract specification allows — whether it is accepted or refused, for **every** refusal
-(wrong file system, chunk length, label/directory attribute, invalid name, unreadable directory, duplicate name, root
-directory full, metadata vectors too short, not enough free clusters): refused without any change; accepted: exactly one
-new record under `absPath p`, a file owning previously free clusters, whose chunks begin with the stored chunks and whose
-length is the file image's; every other record, in the root and below, is read exactly as before -/
+invariant, a root-level path in any spelling of case and a two-byte clock, `put` of **any** file image followed by the
+flush preserves the invariant and is a step the abstract specification allows — whether it is accepted or refused, for
+**every** refusal (wrong file system, chunk length, label/directory attribute, a hole / an oversized chunk / a length beyond
+the chunks, invalid name, unreadable directory, duplicate name, root directory full, metadata vectors too short, not enough
+free clusters): refused without any change; accepted: exactly one new record under `absPath p`, a file owning previously
+free clusters, whose chunks begin with the stored chunks and whose length is the file image's; every other record, in the
+root and below, is read exactly as before.  (Before fix 7da7b06 the theorem needed three hypotheses on the file image, and
+a2kit misbehaved at each excluded point: `design/FsFat.md`.) -/
 theorem put_step {d d' : Disk} {fi : FImg} {now : Stamp} {res : R Nat} (inv : Inv d) (a : RootArg fi.fullPath)
-    (hs : StampOk now) (pa : PutArg fi) (h : runFlush (put fi now) d = (res, d')) :
+    (hs : StampOk now) (h : runFlush (put fi now) d = (res, d')) :
     Inv d' ∧ stepOk fatParams (volOf d) (.put (absPath fi.fullPath) (chunksOf fi) (le32 fi.eof 0) 0 0) (okB res) (volOf d') = true := by
   have hwf := (inv_reads_well_formed inv).2.1
-  rcases put_step_core inv a hs pa h with ⟨er, h1, h2⟩ |
+  rcases put_step_core inv a hs h with ⟨er, h1, h2⟩ |
     ⟨⟨n, h1⟩, inv', F1, F2, rec, free', hv, hp, hd, hgn, hgf, hnd, hfree, hpn, hc, hcm, he, hvol⟩
   · subst h1 h2
     exact ⟨inv, stepOk_refused_same hwf _⟩
@@ -168,6 +168,13 @@ theorem put_step {d d' : Disk} {fi : FImg} {now : Stamp} {res : R Nat} (inv : In
     refine ⟨inv', ?_⟩
     rw [hvol, ← hp]
     exact stepOk_put_inserted hv hwf hgn hgf hnd hfree hpn hc hd hcm he (fun h => by cases h) (fun h => by cases h)
+
+/-- the statement that was proved for `put` with the proposed repair before the repair was in the tree (kept under its name:
+it is registered for C04): the repaired `put` — now the code — refines for every file image -/
+theorem putRepaired_step {d d' : Disk} {fi : FImg} {now : Stamp} {res : R Nat} (inv : Inv d) (a : RootArg fi.fullPath)
+    (hs : StampOk now) (h : runFlush (put fi now) d = (res, d')) :
+    Inv d' ∧ stepOk fatParams (volOf d) (.put (absPath fi.fullPath) (chunksOf fi) (le32 fi.eof 0) 0 0) (okB res) (volOf d') = true :=
+  put_step inv a hs h
 
 /-- **`rename` refines** (C02, C05, C19): for a state satisfying the invariant and a root-level name (any case) that does not
 denote a directory, `rename(p, q)` followed by the flush preserves the invariant and is a step the specification allows:
@@ -243,107 +250,6 @@ theorem retype_step {d d' : Disk} {p : Bytes} {t : NewType} {res : R Unit} (inv 
       refine ⟨inv', ?_⟩
       rw [hvol, ← hp]
       exact stepOk_retype_replaced (g := recAttr rec (newAttrO rec.access set clear)) hv hwf rfl rfl rfl rfl rfl
-
-/-! ## the proposed repair of `put` (`proposed_fixes/fat-put-validates-file-image.diff`) closes the gap -/
-
-/-- what the repaired `put` checks before it touches anything: every chunk `0 ..< end` is present and no longer than
-`chunk_len`, and the four size bytes do not exceed `end · chunk_len` -/
-def storable (f : FImg) : Bool :=
-  (List.range f.end).all (fun k => match f.chunks.lookup k with
-    | some data => decide (data.length ≤ f.chunkLen)
-    | none => false) &&
-  (decide (f.eof.length < 4) || decide (le32 f.eof 0 ≤ f.end * f.chunkLen))
-
-/-- `put` with the proposed repair: the new refusal comes after the three existing ones and before `prepare_to_write` -/
-def putRepaired (f : FImg) (now : Stamp) : M Nat := fun d =>
-  if f.fsOk && decide (f.chunkLen = d.bpb.blockSize) && !f.dirOrLabel && !storable f then (.error .writeFault, d) else put f now d
-
-/-- **the repaired `put` refines for every file image**: no hypothesis on the chunks or the length is left -/
-theorem putRepaired_step {d d' : Disk} {fi : FImg} {now : Stamp} {res : R Nat} (inv : Inv d) (a : RootArg fi.fullPath)
-    (hs : StampOk now) (h : runFlush (putRepaired fi now) d = (res, d')) :
-    Inv d' ∧ stepOk fatParams (volOf d) (.put (absPath fi.fullPath) (chunksOf fi) (le32 fi.eof 0) 0 0) (okB res) (volOf d') = true := by
-  have hwf := (inv_reads_well_formed inv).2.1
-  obtain ⟨f, c⟩ := inv.coh
-  have g := inv.geo
-  by_cases hck : (fi.fsOk && decide (fi.chunkLen = d.bpb.blockSize) && !fi.dirOrLabel && !storable fi) = true
-  · unfold runFlush putRepaired at h
-    simp only [hck, if_true, flush_noop g c] at h
-    injection h with h1 h2
-    subst h1 h2
-    exact ⟨inv, stepOk_refused_same hwf _⟩
-  · have hput : runFlush (put fi now) d = (res, d') := by
-      unfold runFlush putRepaired at h
-      unfold runFlush
-      simp only [hck, Bool.false_eq_true, if_false] at h
-      exact h
-    -- either one of the earlier refusals applies, or the file image is storable
-    by_cases hst : storable fi = true
-    · by_cases hm : MetaOk fi
-      · have pa : PutArg fi := by
-          unfold storable at hst
-          simp only [Bool.and_eq_true, List.all_eq_true, List.mem_range, Bool.or_eq_true, decide_eq_true_eq] at hst
-          refine { noHole := ?_, fits := ?_, eofFits := ?_ }
-          · intro k hk
-            have := hst.1 k hk
-            cases hl : fi.chunks.lookup k with
-            | none => rw [hl] at this; cases this
-            | some _ => rfl
-          · intro k hk
-            have := hst.1 k hk
-            unfold chunkAt
-            cases hl : fi.chunks.lookup k with
-            | none => rw [hl] at this; cases this
-            | some data => rw [hl] at this; simpa using this
-          · rcases hst.2 with h4 | h4
-            · unfold MetaOk at hm; omega
-            · exact h4
-        exact put_step inv a hs pa hput
-      · -- metadata vectors too short: `put` is refused (or panics) before anything is written, whatever the chunks are
-        have : ∃ er, put fi now d = (.error er, d) := by
-          have hh : ∀ k, k < fi.end → (fi.chunks.lookup k).isSome = true := by
-            unfold storable at hst
-            simp only [Bool.and_eq_true, List.all_eq_true, List.mem_range] at hst
-            intro k hk
-            have := hst.1 k hk
-            cases hl : fi.chunks.lookup k with
-            | none => rw [hl] at this; cases this
-            | some _ => rfl
-          rcases put_run g c a hs hh with h1 | ⟨_, _, _, _, _, _, _, _, _, _, _, _, _, _, _, _, _, _, hm', _⟩
-          · exact h1
-          · exact absurd hm' hm
-        obtain ⟨er, hrun⟩ := this
-        unfold runFlush at hput
-        rw [hrun] at hput
-        simp only [flush_noop g c] at hput
-        injection hput with h1 h2
-        subst h1 h2
-        exact ⟨inv, stepOk_refused_same hwf _⟩
-    · -- not storable and the new check did not fire: one of the three earlier refusals did
-      have : ∃ er, put fi now d = (.error er, d) := by
-        have hst' : storable fi = false := by simpa using hst
-        simp only [hst', Bool.not_false, Bool.and_true, Bool.and_eq_true, decide_eq_true_eq, Bool.not_eq_true', not_and] at hck
-        unfold put
-        by_cases h1 : fi.fsOk = true
-        · by_cases h2 : fi.chunkLen = d.bpb.blockSize
-          · have h3 : fi.dirOrLabel = true := by
-              have := hck ⟨h1, h2⟩
-              simpa using this
-            simp only [h1, Bool.not_true, Bool.false_eq_true, if_false, M_bind_apply, M.get, h2, ne_eq, not_true_eq_false, h3, if_true,
-              M_fail_apply]
-            exact ⟨_, rfl⟩
-          · simp only [h1, Bool.not_true, Bool.false_eq_true, if_false, M_bind_apply, M.get]
-            rw [if_pos h2]
-            exact ⟨_, rfl⟩
-        · have : fi.fsOk = false := by simpa using h1
-          simp only [this, Bool.not_false, if_true, M_fail_apply]
-          exact ⟨_, rfl⟩
-      obtain ⟨er, hrun⟩ := this
-      unfold runFlush at hput
-      rw [hrun] at hput
-      simp only [flush_noop g c] at hput
-      injection hput with h1 h2
-      subst h1 h2
-      exact ⟨inv, stepOk_refused_same hwf _⟩
 
 /-! ## `format` -/
 
@@ -512,10 +418,9 @@ def FOp.abs : FOp → FsOp
   | .unlock p => .unlock (absPath p)
   | .retype p _ => .retype (absPath p)
 
-/-- the conditions on the arguments that do not depend on the state: a root-level path; for `put` a two-byte clock and a
-well-formed file image -/
+/-- the conditions on the arguments that do not depend on the state: a root-level path; for `put` a two-byte clock -/
 def FOp.StaticOk : FOp → Prop
-  | .put fi now => RootArg fi.fullPath ∧ StampOk now ∧ PutArg fi
+  | .put fi now => RootArg fi.fullPath ∧ StampOk now
   | .delete p => RootArg p
   | .rename p _ => RootArg p
   | .lock p => RootArg p
@@ -546,7 +451,7 @@ theorem fop_step {d : Disk} (inv : Inv d) (op : FOp) (ha : op.ArgOk d) :
     Inv (op.run d).2 ∧ stepOk fatParams (volOf d) op.abs (op.run d).1 (volOf (op.run d).2) = true := by
   obtain ⟨hs, hf⟩ := ha
   cases op with
-  | put fi now => exact put_step inv hs.1 hs.2.1 hs.2.2 (prod_eta _)
+  | put fi now => exact put_step inv hs.1 hs.2 (prod_eta _)
   | delete p => exact delete_step inv hs (hf _ rfl) (prod_eta _)
   | rename p q => exact rename_step inv hs (hf _ rfl) (prod_eta _)
   | lock p => exact lock_step inv hs (hf _ rfl) (prod_eta _)
@@ -601,7 +506,7 @@ theorem fop_keeps_flat {d : Disk} (inv : Inv d) (fl : Flat d) (op : FOp) (hs : o
     · exact fl r (by rw [hv]; simp [h])
   cases op with
   | put fi now =>
-    rcases put_step_core inv hs.1 hs.2.1 hs.2.2 (prod_eta _) with ⟨_, _, h2⟩ | ⟨_, _, F1, F2, rec, free', hv, _, hd, _, _, _, _, _, _, _, _, hvol⟩
+    rcases put_step_core inv hs.1 hs.2 (prod_eta _) with ⟨_, _, h2⟩ | ⟨_, _, F1, F2, rec, free', hv, _, hd, _, _, _, _, _, _, _, _, hvol⟩
     · show Flat (runFlush (Fs.Fat.put fi now) d).2
       rw [h2]; exact fl
     · intro r hr
@@ -807,9 +712,9 @@ theorem exDisk0_flat : Flat exDisk0 := by
 
 /-- the hypotheses of `put_step` (and of `fop_step` for a `put`) are satisfiable: the formatted example volume and the file
 image that `exDisk` is built with -/
-theorem exPut_static : (FOp.put exFile exStamp).StaticOk := ⟨exFile_arg, exStamp_ok, exFile_putArg⟩
+theorem exPut_static : (FOp.put exFile exStamp).StaticOk := ⟨exFile_arg, exStamp_ok⟩
 
-example : Inv exDisk0 ∧ RootArg exFile.fullPath ∧ StampOk exStamp ∧ PutArg exFile := ⟨exDisk0_inv, exPut_static⟩
+example : Inv exDisk0 ∧ RootArg exFile.fullPath ∧ StampOk exStamp := ⟨exDisk0_inv, exPut_static⟩
 
 theorem FOp.run_put (d : Disk) (fi : FImg) (now : Stamp) : ((FOp.put fi now).run d).2 = (runFlush (Fs.Fat.put fi now) d).2 := rfl
 
@@ -951,18 +856,16 @@ example : ∃ (d : Disk) (f : Array Nat) (c1 : Nat) (cl : List Nat), Geo d ∧ W
   · rw [hlen, o.len]; unfold epcOf; rw [hb, hspc]; omega
   · unfold epcOf; rw [hb, hspc]
 
-/-! ## the code as written leaks clusters when it refuses a file image with a hole -/
+/-! ## a file image with a hole is refused before anything is written (fix 7da7b06) -/
 
 /-- a file image whose chunk 1 is missing (`end` = 3) -/
 def exHole : FImg := { exFile with fullPath := [72], chunks := [(0, [1]), (2, [2])], eof := [0, 0, 0, 0] }
 
-/-- `PutArg.noHole` cannot be dropped: `put` of the file image with a hole is refused (`WriteFault`) only after the
-cluster loop has taken a cluster for chunk 0; the flushed image lists no file, has one free cluster less, and the reading
-is no longer leak free — the invariant is lost by a *refused* operation.  Same on the real code (180K volume: free 339 →
-337 with chunks 0, 1, 3); the repaired `put` refuses before anything is written (`putRepaired_step`: the invariant is kept) -/
-example : okB (runFlush (put exHole exStamp) exDisk0).1 = false ∧ exDisk0.bpb.clusterCountUsable = 20 ∧
-    (fun v : Vol => (v.files, v.free, v.noLeak)) (volOf (runFlush (put exHole exStamp) exDisk0).2) = ([], 19, false) ∧
-    okB (runFlush (putRepaired exHole exStamp) exDisk0).1 = false := by
+/-- `put` of the file image with a hole is refused and the reading is what it was: no file, all 20 clusters free, no leak.
+Before the fix the cluster loop had taken a cluster for chunk 0 when it met the hole: refused, free 20 → 19, `noLeak = false`
+(on the real code, 180K volume, chunks 0, 1, 3: `stat().free_blocks` 339 → 337) -/
+example : okB (runFlush (put exHole exStamp) exDisk0).1 = false ∧
+    (fun v : Vol => (v.files, v.free, v.noLeak)) (volOf (runFlush (put exHole exStamp) exDisk0).2) = ([], 20, true) := by
   decide +kernel
 
 /-! ## the code as written (label entries in the map of files) does **not** refine the specification -/
